@@ -20,7 +20,7 @@ RULE = (
 ASSUMPTIONS = ["with cbca only the scalar-nesting relation is claimed (NaN-ed neighbours legitimately change aggregated sums)"]
 GATES = {
     "nested_scalar_pairs": 10, "grid_of_equal_width_intervals": 1, "nested_with_cbca": 2, "grid_vs_hull": 5, "constant_grid_vs_scalar": 3, "point_inner_interval": 1,
-    "end_to_end_pipelines": 10, "costs_compared": 50000, "pixels_contained": 5000,
+    "end_to_end_pipelines": 10, "interval_excluding_0_with_filling": 2, "interval_excluding_0": 5, "filled_pixels_contained": 1, "costs_compared": 50000, "pixels_contained": 5000,
 }
 INVALID = 0b1111000011
 
@@ -166,22 +166,43 @@ def _e2e(case, ctx):
 
     rng = ctx.rng("e2e", case["part"], case["i"])
     rows, cols = int(rng.integers(7, 24)), int(rng.integers(9, 30))
-    keys, params, info = pipes.random_pipeline(rng, rows, cols, max_post=4, allow_mfi=False, repeat_bias=0.2)
+    directed = case["i"] < 4
+    if directed:
+        # directed constructor: an interval far from 0 on a small tile (the band of pixels without any candidate covers
+        # about half of it), cross-checking and filling
+        rows, cols = int(rng.integers(7, 12)), int(rng.integers(10, 16))
+        keys, params, info = pipes.random_pipeline(rng, rows, cols, max_post=2 + case["i"] % 2, allow_mfi=False, validation=True,
+                                                   filling=["sgm", "mc-cnn"][(case["part"] + case["i"]) % 2])
+    else:
+        keys, params, info = pipes.random_pipeline(rng, rows, cols, max_post=4, allow_mfi=False, repeat_bias=0.2)
     l, r = gen.stereo_pair(rng, rows, cols, gen.TEXTURES[int(rng.integers(0, 5))], max_shift=3)
     lm = gen.mask(rng, rows, cols, gen.MASK_KINDS[int(rng.integers(0, 9))]) if rng.random() < 0.4 else None
-    use_grid = rng.random() < 0.4
-    lo, hi = -int(rng.integers(0, 5)), int(rng.integers(0, 5))
-    if lo == hi == 0:
-        hi = 2
+    rm = gen.mask(rng, rows, cols, gen.MASK_KINDS[int(rng.integers(0, 9))]) if rng.random() < 0.3 else None
+    use_grid = rng.random() < 0.4 and not directed
+    ik = "far-neg" if directed else ["around", "around", "neg", "pos", "far-neg", "far-pos"][int(rng.integers(0, 6))]
+    if ik == "around":
+        lo, hi = -int(rng.integers(0, 5)), int(rng.integers(0, 5))
+        if lo == hi == 0:
+            hi = 2
+    elif ik in ("neg", "pos"):
+        a = int(rng.integers(1, 4))
+        lo, hi = (-a - int(rng.integers(0, 4)), -a) if ik == "neg" else (a, a + int(rng.integers(0, 4)))
+    else:
+        a = int(rng.integers(max(2, cols // 2 - 2), cols // 2 + 2))
+        lo, hi = (-a - int(rng.integers(0, 3)), -a) if ik == "far-neg" else (a, a + int(rng.integers(0, 3)))
     if use_grid:
         disp = gen.grids(rng, rows, cols, lo, hi, ["random", "points", "band", "pointvar"][int(rng.integers(0, 4))])
         rdisp = gen.grids(rng, rows, cols, -hi, -lo, "random")
     else:
         disp, rdisp = (lo, hi), None
     left = gen.make_dataset(l, disp, lm)
-    right = gen.make_dataset(r, rdisp, None)
+    right = gen.make_dataset(r, rdisp, rm)
     pipe = pipes.build_pipe(keys, params)
-    desc = {"pipeline": keys, "params": {k: params[k] for k in keys}, "shape": [rows, cols], "disp": [lo, hi], "grid": use_grid}
+    desc = {"pipeline": keys, "params": {k: params[k] for k in keys}, "shape": [rows, cols], "disp": [lo, hi], "grid": use_grid,
+            "interval": ik, "masks": [lm is not None, rm is not None]}
+    fills = any(params[k].get("interpolated_disparity") for k in keys)
+    ctx.gate("interval_excluding_0_with_filling", int(fills and not lo <= 0 <= hi))
+    ctx.gate("interval_excluding_0", int(not lo <= 0 <= hi))
     m = pipes.new_machine()
     pipes.check(m, pipe, left, right)
     cfg = pipes.checked_cfg(m, pipe)
@@ -198,6 +219,8 @@ def _e2e(case, ctx):
         d = mm.left_disparity["disparity_map"].data.astype(np.float64)
         valid = (mm.left_disparity["validity_mask"].data & INVALID) == 0
         ctx.gate("pixels_contained", int(valid.sum()))
+        if kind == "validation":
+            ctx.gate("filled_pixels_contained", int((valid & ((mm.left_disparity["validity_mask"].data & 0b110000) != 0)).sum()))
         outg = valid & ~((d >= lo - 1e-6) & (d <= hi + 1e-6))
         if outg.any():
             i = np.argwhere(outg)[0]
